@@ -22,7 +22,8 @@ SOLVERS = {
 
 
 def run1(solver, script, timeout):
-    fn = os.path.join(WORK, f"q_{os.getpid()}_{hashlib.md5(script.encode()).hexdigest()[:12]}_{solver}.smt2")
+    import threading
+    fn = os.path.join(WORK, f"q_{os.getpid()}_{threading.get_ident() % 100000}_{time.time_ns() % 10**9}_{hashlib.md5(script.encode()).hexdigest()[:10]}_{solver}.smt2")
     with open(fn, "w") as f:
         f.write(script)
     cmd = SOLVERS[solver] + ([f"-T:{int(timeout)}"] if solver.startswith("z3") else [f"--tlimit={int(timeout * 1000)}"]) + [fn]
@@ -338,6 +339,49 @@ class Verdict:
         self.detail = {}
 
 
+_hyp_cache = {}
+
+
+def guard_unsat(o, v, script):
+    """guards behind every 'unsat' that proves an obligation (z3 was observed to answer unsat on a satisfiable seq + quantifier script):
+    (1) the hypotheses alone must not be contradictory for the solver that proved the goal -- if they are, the other solver has to confirm
+        that the path is infeasible, otherwise the verdict is withdrawn (undecided);
+    (2) for scripts that use the sequence / string theories, the other back end must not answer 'sat' on the same script (short budget)."""
+    prover = v.solver if v.solver in SOLVERS else "z3"
+    other = "cvc5" if prover.startswith("z3") else "z3"
+    hyp_only = type(o)(o.name, o.kind, o.prelude, o.pc, "false", o.line, o.func, "sat", o.consts)
+    hs = full_script(hyp_only)
+    key = (prover, hashlib.md5(hs.encode()).hexdigest())
+    if key not in _hyp_cache:
+        r, ms, _ = run1(prover, hs, 2)
+        v.ms += ms
+        r2 = None
+        if r == "unsat":
+            r2, ms2, _ = run1(other, hs, 10)
+            v.ms += ms2
+        _hyp_cache[key] = (r, r2)
+    r, r2 = _hyp_cache[key]
+    risky = prover.startswith("z3") and "(Seq String)" in script
+    if r == "unsat":
+        if r2 == "unsat":
+            v.detail["vacuous_path"] = "hypotheses contradictory according to both back ends: infeasible path"
+        elif not risky:
+            # an infeasible path (dead branch, impossible pair of relational paths); the wrong-unsat answers observed from z3 all involved
+            # quantified formulas over sequences of strings, which is what the withdrawal below is reserved for
+            v.detail["vacuous_path"] = f"hypotheses contradictory according to {prover} ({other}: {r2})"
+        else:
+            v.detail["guard"] = f"{prover} finds the hypotheses of this path contradictory, {other} does not confirm it ({r2}): verdict withdrawn"
+            v.status = "undecided"
+            return v
+    if "seq." in script or "str." in script:
+        r3, ms3, _ = run1(other, script, 1)
+        v.ms += ms3
+        if r3 == "sat":
+            v.detail["guard"] = f"back ends disagree: {prover} unsat, {other} sat"
+            v.status = "undecided"
+    return v
+
+
 def discharge_one(o, tier="quick"):
     v = Verdict(o)
     t1, t2 = (20, 20) if tier == "quick" else (60, 60)
@@ -385,7 +429,7 @@ def discharge_one(o, tier="quick"):
         v.detail[f"s1-{sv}"] = r
         if r == "unsat":
             v.status, v.solver, v.stage = "proved", sv, 1
-            return v
+            return guard_unsat(o, v, script)
         if r == "sat":
             v.status, v.solver, v.stage = "refuted", sv, 1
             rr, ms2, full2 = run1(sv, full_script(o, model=True), dict(order)[sv])
@@ -401,7 +445,7 @@ def discharge_one(o, tier="quick"):
         v.detail[f"s2-{sv}"] = r
         if r == "unsat":
             v.status, v.solver, v.stage = "proved", sv, 2
-            return v
+            return guard_unsat(o, v, s2)
         if r == "sat":
             rr, ms2, full = run1(sv, s2, dict(order)[sv])     # once more for the model text
             v.status, v.solver, v.stage, v.model = "refuted", sv, 2, full
